@@ -161,7 +161,7 @@ def w_small(ctx, rng, i):
 
 
 def w_random(ctx, rng, i):
-    kind = ["random", "chain", "cycle", "tree", "directed", "edgeless"][i % 6]
+    kind = ["random", "chain", "cycle", "tree", "directed", "edgeless", "stored_zeros"][i % 7]
     V = int(rng.integers(2, 13))
     g = gmrfmon.make_graph(rng, V, kind)
     run_case(ctx, rng, g, kind, i // 6 + i)
